@@ -50,6 +50,8 @@ def plan(tier, seed):
             shards.append(('soup', 'default', 'SMALL', L5, k))
     for k in range(NSHARDS):
         shards.append(('docs', ndocs // NSHARDS, seed * 1000 + k))
+    if tier != 'quick':
+        shards += [('fuzz', FUZZ_RUNS, seed * 100 + k + 1) for k in range(NSHARDS)]
     return {'shards': shards,
             'bounds': {'soup_len_default': L, 'soup_len_everytype': LE, 'soup_len_small': L5,
                        'alphabet_sizes': {'SIG': len(SIG), 'EVERY': len(ALPHA_EVERY),
@@ -122,7 +124,18 @@ def check_source(s, ctxname, res, case, prefix=''):
             res.fail('c01:tolerant:' + key, detail, dict(case, mode='tolerant'))
 
 
+FUZZ_RUNS = 30000
+
+
+def fuzz_case(s, i):
+    return {'kind': 'doc', 'ctx': ('default', 'extra', 'every')[i % 3], 'src': s}
+
+
 def run_shard(shard, res):
+    if shard[0] == 'fuzz':
+        from .. import fuzz
+        fuzz.campaign(ID, shard[1], shard[2], res)
+        return
     if shard[0] == 'soup':
         _, ctxname, alpha, L, k = shard
         for toks in soups.enum_tokens(ALPHAS[alpha], L, k, NSHARDS):
